@@ -79,8 +79,8 @@ PROPS = {
         "explanation": "C12 theorems over the Lean model of sanitize_stack_copy: totality, output structure (zeros below SP, classified words, zero partial tail), "
                        "length kept, and per word: unchanged iff it qualifies, sentinel otherwise (uses pre-filter soundness and the last-hit cache invariant); "
                        "counterexample theorems for the two repaired defects. System_stack_sanitized (Theorems/System.lean): for the request as one function over a paged target memory, the stack the image records for a thread (sanitization on, stack pointer in a mapping of readable pages) is the sanitization of the target's bytes of the recorded range with the thread's stack pointer and its offset in that range; the bytes below the aligned stack pointer are zero in the image.",
-        "extra_modules": ["MdwModel.Theorems.System"],
-        "extra_theorems": ["System_stack_sanitized"],
+        "extra_modules": ["MdwModel.Theorems.System", "MdwModel.Theorems.SpBelow"],
+        "extra_theorems": ["System_stack_sanitized", "SpBelow_source_agrees", "SpBelow_offset_zero", "SpBelow_reference_keeps_stack"],
     },
     "C06": {
         "rule": "real get_stack_info on synthetic layouts (accessible / PROT_NONE guard / unmapped, gaps around the 1 MiB guard distance, top of the "
@@ -118,8 +118,8 @@ PROPS = {
                        "rule; no principal mapping ⇒ all stacks skipped; counterexample theorem for the repaired inclusive comparison. "
                        "E2E_skip_iff (Theorems/EndToEnd.lean): in the composed model of fill_thread_stack the stack is recorded iff the inclusion rule "
                        "holds on the copy actually taken (the shortened one under a limit), with the offset of the stack pointer in that copy. System_skip (Theorems/System.lean): for the request as one function over a paged target memory, the image records the stack of a thread (stack pointer in readable memory) iff the inclusion rule holds on the target's bytes of the (possibly shortened) region with the stack pointer's offset in that region; the thread's record and context are there either way.",
-        "extra_modules": ["MdwModel.Theorems.EndToEnd", "MdwModel.Theorems.System"],
-        "extra_theorems": ["E2E_skip_iff", "gather_order_agrees", "System_skip"],
+        "extra_modules": ["MdwModel.Theorems.EndToEnd", "MdwModel.Theorems.System", "MdwModel.Theorems.SpBelow"],
+        "extra_theorems": ["E2E_skip_iff", "gather_order_agrees", "System_skip", "SpBelow_source_agrees", "SpBelow_offset_zero", "SpBelow_reference_keeps_stack"],
     },
     "C15": {
         "rule": "real thread_names_stream::write on a synthetic dumper: every subset of unnamed threads for n ≤ 6 (quick) / 8 (thorough), "
@@ -222,8 +222,8 @@ PROPS = {
                        "C07_image_list / _thread_regions / _app_regions: in the whole-image model (Model/Dump.lean) of any content the memory list in directory slot 2 "
                        "is the serialised list of registered blocks; every captured stack, instruction-pointer window and application region is such a block with "
                        "the requested address and the length read, and the image holds its captured bytes at the block's location. Theorems/System.lean states these for the request as one function (systemDump = dumpBytes ∘ gatherDump over the observed target state, the reader being the C17 model): System_stack and System_app say that the image records stacks and readable application regions with their addresses, lengths and the target's bytes, and lists them in the memory list.",
-        "extra_modules": ["MdwModel.Theorems.System"],
-        "extra_theorems": ["System_stack", "System_app", "gatherApp_get", "gatherApp_descriptor_agrees", "System_window"],
+        "extra_modules": ["MdwModel.Theorems.System", "MdwModel.Theorems.AppLoop"],
+        "extra_theorems": ["System_stack", "System_app", "gatherApp_get", "gatherApp_descriptor_agrees", "System_window", "AppLoop_source_agrees", "AppLoop_same_start", "AppLoop_count"],
     },
     "C14": {
         "rule": "BuildId::read_from_module / SoName::read_from_module (slice mode, each under catch_unwind) on: random byte strings of 0 … 200 bytes; "
